@@ -20,6 +20,34 @@ META = {
             "the fast-validator/slow-parser agreement is checked by correspondence and oracle on the listed block families, not yet by a theorem",
         ],
     },
+    "C02": {
+        "sections": ["Arith.Max", "Arith.Min", "Arith.rangeCompare"],
+        "rule": "shape family: every between-site/point/(partial) range/ambiguous span with coordinates in [0,8], their complements, joins and orders (and complements thereof) of 2 parts (thorough: 3 parts) from a 15-part pool incl. abutting, overlapping, single-base, zero-length and complemented parts, nesting 2; x every insertion index 0..8 x guest lengths {0,1,3}; Shift and Expand at location level, Insert and Embed at sequence level (host table = source + shape + another feature, guest with 0/1 feature), plus random tables of 0..5 features with nesting <= 2. Non-trivial = guest length > 0 (location level) / every sequence-level case; distinct = distinct case lines.",
+        "assumptions": ["Go int as unbounded Z", "theorems cover locations without join(...) in the input (the joins produced by splitting are covered); joins in the input are covered by correspondence + oracle",
+                        "the partial-marker clause is checked on locations whose markers sit on outer ends only (INSDC well-formed)"],
+    },
+    "C03": {
+        "sections": ["Arith.Max", "Arith.rangeWithin", "Arith.rangeOverlap"],
+        "rule": "shape family as C02 on a length-9 sequence x every (i,n) with n<=4 or n reaching the end; Delete and Erase on tables (source + shape) for all i and n in {0,1,3,L-i}; Slice over windows s,e in [-9,9] incl. wrap-around and negative indices. Non-trivial = n>0 / every slice; distinct case lines.",
+        "assumptions": ["Go int as unbounded Z", "theorem covers inputs without join(...); ambiguous spans are compared at span level",
+                        "GenBank REFERENCE clipping (metadata) is exercised under C01's check, not here"],
+    },
+    "C04": {
+        "sections": ["Arith.Max"],
+        "rule": "L in {1,5,8} (thorough 1..8), every shape of the family without ambiguous spans, every n in [-3L,3L]; additivity with b in {1,-2,L}; Normalize alone on the full family for L in {3,8}. Non-trivial = n not a multiple of L.",
+        "assumptions": ["Go int as unbounded Z", "feature-level clauses (denotation under Expand(0,n).Normalize(L)) are decided by correspondence + oracle; theorems cover the residues"],
+    },
+    "C05": {
+        "sections": ["Tables.complement"],
+        "rule": "shape family with triples plus joins/orders of 4 and 5 parts, L=8: Reverse, Complement, Region, den at location level; Reverse, Complement, Locate and reverse-complement extraction at sequence level. Distinct case lines, all non-trivial.",
+        "assumptions": ["theorem covers inputs without join(...) (order(...) of every arity is covered)",
+                        "extraction equality is claimed for locations that name no base twice (Join drops duplicates, C06)"],
+    },
+    "C10": {
+        "sections": ["Arith.Max"],
+        "rule": "shape family on a length-8 host x every i x guest lengths {1,2,3}: insert;delete and embed;delete; cut sets {},{3},{0},{8},{2,5},{2,2},{1,4,6},{0,4,8},{1,3,5,7} through slice*;concat. All non-trivial; distinct case lines.",
+        "assumptions": ["exact restoration is proved for contiguous locations; multi-part locations by correspondence + oracle at denotation level"],
+    },
 }
 
 
